@@ -71,6 +71,8 @@ def run(prop, tier, replay=None):
             raise MachineryError("MC_MassGuess emission failed:\n" + e.error)
         cases = [tla_string_to_json(rest) for t, rest in e.printed if t == "CASE"]
         out.exhaustive = True
+    # loose tolerances first, so that anything remembered from a loose call would be visible in a strict one
+    cases.sort(key=lambda c: (-c["tol"], c["ms"]))
     events, src = [], []
     for c in cases:
         for ev in execute(c):
